@@ -26,11 +26,25 @@ Fixpoint tree_eqb (a b : tree) : bool :=
   | _, _ => false
   end.
 
-(* 0 = the model's tree equals the observed one; 1 = differs; 2 = model error; 3 = model panic *)
+(* executable form of WF5 (every non-blank parent has a non-blank leaf in each subtree), used on
+   the trees exported by the implementation *)
+Definition member_b (t : tree) (k j : N) : bool :=
+  existsb (fun l => (l / 2 ^ k =? j) && match get t (2 * l) with None => false | Some _ => true end)
+          (map N.of_nat (seq 0 (S (Nat.div (length t) 2)))).
+Definition level_of (p : N) : N :=      (* number of trailing one bits *)
+  (fix go (fuel : nat) (x acc : N) : N := match fuel with O => acc | S f => if N.odd x then go f (x / 2) (acc + 1) else acc end) 64%nat p 0.
+Definition wf5_check (t : tree) : bool :=
+  forallb (fun p => match get t p with
+                    | Some (Par _) => let k1 := level_of p in
+                                      let j := p / 2 ^ (k1 + 1) in
+                                      member_b t (k1 - 1) (2 * j) && member_b t (k1 - 1) (2 * j + 1)
+                    | _ => true end) (map N.of_nat (seq 0 (length t))).
+
+(* 0 = the model tree equals the observed one (and it satisfies WF5); 1 = differs; 2 = model error; 3 = model panic; 4 = equal but WF5 fails *)
 Definition commit_case (before : tree) (removes : list N) (updates : list (N * N)) (adds : list N)
            (path : option (N * N)) (after : tree) : N :=
   match apply_commit before removes updates adds path with
-  | TOk (t, _) => if tree_eqb t after then 0 else 1
+  | TOk (t, _) => if tree_eqb t after then (if wf5_check after then 0 else 4) else 1
   | TErr _ => 2
   | TPanic => 3
   end.
